@@ -35,6 +35,20 @@ def reachable_adts(F, roots):
     return seen
 
 
+def _names_shared_static(F, node):
+    """does this operand/rvalue tree name a static that is mutable, thread-local or has interior mutability?  (an immutable
+    static of a Freeze type is a constant with an address: no location that two evaluators could both write)"""
+    if isinstance(node, dict):
+        if "static_ref" in node:
+            return node["static_ref"] not in F.const_statics
+        if "tls" in node:
+            return True
+        return any(_names_shared_static(F, v) for v in node.values())
+    if isinstance(node, list):
+        return any(_names_shared_static(F, v) for v in node)
+    return False
+
+
 def shared_location_sites(F, fn):
     """accesses of statics / thread-locals in one body: [(kind, line, description, construct)]"""
     out = []
@@ -44,15 +58,14 @@ def shared_location_sites(F, fn):
         for s in blk["stmts"]:
             if s["k"] != "assign":
                 continue
-            txt = str(s["rv"])
-            if "'static_ref'" in txt or "'tls'" in txt:
+            if _names_shared_static(F, s["rv"]):
                 out.append(("static-access", s["line"], f"{p} reads or writes a static / thread-local: state shared by all "
                             f"evaluators in the process", "static access"))
         t = blk["term"]
         if t["k"] == "call" and (I.callee_path(t).startswith("std::thread::LocalKey") or "LocalKey<" in str(t["args"])):
             out.append(("thread-local", blk["line"], f"{p} uses a thread_local! key: per-thread state outlives and is shared "
                         f"between evaluators on one thread", "LocalKey access"))
-        if t["k"] == "call" and "'static_ref'" in str(t["args"]):
+        if t["k"] == "call" and _names_shared_static(F, t["args"]):
             out.append(("static-access", blk["line"], f"{p} passes a static to a call", "static access"))
     return out
 
